@@ -420,7 +420,10 @@ def r08_9(ctx) -> None:
 def run(ctx) -> None:
     ctx.guard(r08_9)
     from .c04 import r04_4
-    ctx.guard_as("R08.10", r04_4)  # the JOSE header of a recipient is the union of protected, shared unprotected and per-recipient members
+    ctx.guard_as("R08.10", r04_4)
+    from .c20 import r20_2
+    from ..effects import Effects
+    ctx.guard_as("R08.11", r20_2, Effects(ctx.eng.prog, ctx.eng.cg))  # the per-algorithm parameters (name, hash, key size) are those of the model in use: models keep no state  # the JOSE header of a recipient is the union of protected, shared unprotected and per-recipient members
     ctx.guard(r08_1)
     ctx.guard(r02_2_3)  # R08.2 consume side: reported under R02.2 / R02.3
     ctx.guard(r08_2_produce)
